@@ -45,6 +45,10 @@ type c10Case struct {
 	Acc   int      `json:"acc"`
 	Seed  int      `json:"seed"`
 	Progs []hxProg `json:"progs"`
+	// SlowLogUs > 0: the node's logger writes warnings, and every written line takes this many
+	// microseconds (a log file on a slow disk). A pure schedule perturbation: it widens every window
+	// between a worker's steps that has a log statement in it.
+	SlowLogUs int `json:"slowLogUs,omitempty"`
 }
 
 func (c *c10Case) desc() string {
@@ -105,7 +109,13 @@ func c10Draw(rt *rapid.T) *c10Case {
 	c.Level = rapid.SampledFrom([]int{1, 2, 4, 8, 4, 2}).Draw(rt, "level")
 	c.Acc = rapid.IntRange(2, 5).Draw(rt, "accounts")
 	c.Seed = rapid.IntRange(0, 9).Draw(rt, "seed")
+	if rapid.IntRange(0, 2).Draw(rt, "slowLog") == 0 {
+		c.SlowLogUs = rapid.SampledFrom([]int{200, 1000, 3000}).Draw(rt, "slowLogUs")
+	}
 	n := rapid.IntRange(1, ev.Pick(12, 24)).Draw(rt, "n")
+	if c.SlowLogUs > 0 && rapid.Bool().Draw(rt, "shortBlock") {
+		n = rapid.IntRange(1, 3).Draw(rt, "nShort") // the last transaction is the one everybody waits for
+	}
 	for i := 0; i < n; i++ {
 		p := hxDrawProg(rt, c.Acc, false)
 		if rapid.IntRange(0, 9).Draw(rt, "ensure") == 9 {
@@ -212,11 +222,16 @@ func c10Classify(c *c10Case) c10Class {
 // c10Exec runs the case and returns "" or the violation text. skip is set when the case could
 // not be decided (bounded wait expired).
 func c10Exec(c *c10Case, dir string, rec *ev.Rec) (viol string, skip string) {
+	hxSlowLog = time.Duration(c.SlowLogUs) * time.Microsecond
 	env, err := hxNewEnv(c.Level, dir, c.Acc, c.Seed)
+	hxSlowLog = 0
 	if err != nil {
 		ev.Inconclusive("C10: cannot build environment: %v", err)
 	}
 	defer env.close()
+	if c.SlowLogUs > 0 {
+		rec.Label("slow-logger")
+	}
 	n := len(c.Progs)
 	run := hxNewRun(n)
 	txs := make([]*hxTx, n)
